@@ -13,6 +13,10 @@ CHECKS = {
    text="Each generated (schema, data) pair is validated eagerly and lazily by the real code: raise-equivalence, eager-error-in-lazy-errors and error_counts are checked on every rejected case; the lazy failure cases are compared cell-exactly (column, row position, value) with the reference model's violating cells on pandas and by (column, row position) on polars.",
    note="Cell-exact comparison needs unique non-null row labels, no repeated column labels and well-typed columns (elsewhere only the meta-relations are asserted). Trusts pvm/model.py.",
    ref="4/C02"),
+ "C03": dict(cat="exploration", tech="metamorphic re-validation monitor on every returned object (stripped schema + fixpoint), real code on generated parse workloads",
+   text="Every object returned by the real validate under a random combination of coerce/default/add_missing_columns/strict='filter'/drop_invalid_rows/idempotent parsers is re-submitted to (a) the same schema with all parsing options off and (b) the same schema again, and must be accepted and returned bit-identical. pandas DataFrameSchema/SeriesSchema(+index) and polars DataFrame/LazyFrame.",
+   note="Custom parsers are idempotent by construction; drop_invalid_rows is judged only for unique non-null row labels (documented limitation); >=2 nulls under unique not judged; a LazyFrame result that fails on collect is not judged.",
+   ref="4/C03"),
 }
 NOT_YET = {}
 
